@@ -11,7 +11,9 @@ ENGINE = "verus"
 PROPERTIES = {"C05": "input-position gate: lower_type returns Ok exactly for the documented shapes and pushes an error on every rejection",
               "C15": "the expect/unreachable! sites of lower_type are unreachable under the LookupId contract",
               "C10": "Option<&Opaque> lowers to an optional opaque (null niche), other options to DiplomatOption",
-              "C13": "unsupported backend features (option/callbacks/traits/static_slices) push an error"}
+              "C13": "unsupported backend features (option/callbacks/traits/static_slices) push an error",
+              "C01": "the gate lowers a primitive to the HIR primitive of the same AST primitive and core::cmp::Ordering to i8 (what the macro compiles), so the C backend renders the compiled width",
+              "C07": "same clause: Dart/Kotlin tables are indexed by the primitive the macro compiled (Ordering == i8)"}
 F = "core/src/hir/lowering.rs"
 TYPES = "core/src/ast/types.rs"
 
@@ -24,6 +26,8 @@ LT_CONTRACT = f"""        ensures {CANARY}
             // C10: an optional reference to an opaque is an optional opaque pointer, not a DiplomatOption
             res.is_ok() && (*ty is Option) ==> (opt_is_ref(*ty) ==> opaque_optional(res) == Some(true)) && (!opt_is_ref(*ty) ==> res.unwrap() is DiplomatOption),
             res.is_ok() && (*ty is Reference) ==> opaque_optional(res) == Some(false),
+            // C01/C07: a primitive lowers to the HIR primitive of the same AST primitive (no width/sign change in the gate)
+            res.is_ok() ==> match *ty {{ ast::TypeName::Primitive(p) => prim_of(res) == Some(spec_prim_from_ast(p)), _ => true }},
             // C13: a feature the backend does not support is reported
             unsupported_feature_used(*ty, old(self).attr_validator.attrs_supported_spec()) ==> final(self).errors.errors@.len() > old(self).errors.errors@.len(),
         decreases ty,"""
@@ -49,6 +53,9 @@ EXTRA_SPECS = r"""
 // ---- C10 / C13 observers
 pub open spec fn opt_is_ref(t: ast::TypeName) -> bool {
     match t { ast::TypeName::Option(inner, _) => *inner is Reference, _ => false }
+}
+pub open spec fn prim_of<P: TyPosition<StructPath = StructPath, OpaqueOwnership = Borrow>>(r: Result<Type<P>, ()>) -> Option<PrimitiveType> {
+    match r { Ok(Type::Primitive(p)) => Some(p), _ => None }
 }
 pub open spec fn opaque_optional<P: TyPosition<StructPath = StructPath, OpaqueOwnership = Borrow>>(r: Result<Type<P>, ()>) -> Option<bool> {
     match r { Ok(Type::Opaque(p)) => Some(p.optional.0), _ => None }
@@ -84,6 +91,11 @@ LOT_CONTRACT = f"""        ensures {CANARY}
             // C10: optional pointers stay (nullable) pointers, every other Option is a DiplomatOption
             res.is_ok() && (*ty is Option) ==> (opt_is_ptr(*ty) ==> out_opaque_optional(res) == Some(true)) && (!opt_is_ptr(*ty) ==> res.unwrap() is DiplomatOption),
             res.is_ok() && ((*ty is Reference) || (*ty is Box)) ==> out_opaque_optional(res) == Some(false),
+            // C01/C07: primitives keep their AST primitive; core::cmp::Ordering is returned as i8 (what the macro's ffi_safe_version compiles)
+            res.is_ok() ==> match *ty {{
+                ast::TypeName::Primitive(p) => out_prim_of(res) == Some(spec_prim_from_ast(p)),
+                ast::TypeName::Ordering => out_prim_of(res) == Some(PrimitiveType::Int(IntType::I8)),
+                _ => true }},
             // C03: Box<Opaque> is handed out owned, &Opaque borrowed
             res.is_ok() && (*ty is Box || opt_inner_is_box(*ty)) ==> out_opaque_owned(res) == Some(true),
             res.is_ok() && (*ty is Reference || opt_is_ref(*ty)) ==> out_opaque_owned(res) == Some(false),
@@ -118,6 +130,9 @@ pub open spec fn opt_inner_is_box(t: ast::TypeName) -> bool {
 }
 pub open spec fn out_opaque_optional(r: Result<OutType, ()>) -> Option<bool> {
     match r { Ok(Type::Opaque(p)) => Some(p.optional.0), _ => None }
+}
+pub open spec fn out_prim_of(r: Result<OutType, ()>) -> Option<PrimitiveType> {
+    match r { Ok(Type::Primitive(p)) => Some(p), _ => None }
 }
 pub open spec fn out_opaque_owned(r: Result<OutType, ()>) -> Option<bool> {
     match r { Ok(Type::Opaque(p)) => Some(p.owner is Own), _ => None }
@@ -356,8 +371,7 @@ ASSUMPTIONS = [
     "E6: error message text dropped; E5: unreachable!/expect become obligations",
 ]
 UNVERIFIED = {
-    "C05": ["lower_out_type / lower_return_type / lower_self_param functional contracts (panic-freedom only, see unit lower_out_gate if present)",
-            "validate / validate_ty_in_method (post-lowering lifetime validation)", "attribute validation", "syn parsing (TypeName::from_syn)",
-            "DiplomatWrite-last-parameter rule (lower_many_params)"],
-    "C15": [], "C10": [], "C13": [],
+    "C05": ["validate / validate_ty_in_method (post-lowering lifetime validation)", "attribute validation", "syn parsing (TypeName::from_syn)",
+            "ErrorStore context attribution (set_item / set_subitem)"],
+    "C15": [], "C10": [], "C13": [], "C01": [], "C07": [],
 }
